@@ -86,8 +86,7 @@ func (fx *Fx) iteratorCall(st *State, inner, outer *ast.CallExpr) []callResult {
 	for _, a := range inner.Args {
 		args = append(args, fx.eval(st, a, false))
 	}
-	fx.callOrd[key]++
-	ord := fx.callOrd[key]
+	ord := fx.siteOrdinal(inner, key)
 	bind := fx.specBindings(fd, spec, recv, args)
 	for _, r := range spec.Requires {
 		g := fx.specEval(st, fd.pkg, bind, nil, r.Expr)
